@@ -16,8 +16,9 @@ import (
 )
 
 type aliasObj struct {
-	tpl jsonline.Template // non-nil for a template
-	row jsonline.Row      // non-nil for a live row
+	tpl    jsonline.Template // non-nil for a template
+	row    jsonline.Row      // non-nil for a live row
+	origin int               // for a row: the template it was created from (-1 unknown)
 }
 
 type aliasCtx struct {
@@ -97,6 +98,7 @@ func (c *aliasCtx) history(nops int) string {
 		if len(c.objs) == 0 {
 			kind = 0
 		}
+		noteCase("alias", strings.Join(hist, " ; ")+fmt.Sprintf(" ; <operation kind %d>", kind))
 		p, msg := guard(func() {
 			switch kind {
 			case 0:
@@ -159,6 +161,9 @@ func (c *aliasCtx) history(nops int) string {
 				}
 			case 8, 9:
 				t, src := c.pick(true), c.pick(false)
+				if src >= 0 && c.objs[src].origin >= 0 && r.bool() {
+					t = c.objs[src].origin // re-create a row under the template it came from: same column declarations
+				}
 				if src < 0 {
 					desc = "NewTemplate()"
 					op = "HNewTemplate"
@@ -222,6 +227,9 @@ func (c *aliasCtx) history(nops int) string {
 					break
 				}
 				k, v := genKey(r), genPlainValue(r)
+				if keys := rowKeys(c.objs[rw].row); len(keys) > 0 && r.intn(3) != 0 {
+					k = keys[r.intn(len(keys))]
+				}
 				desc = fmt.Sprintf("#%d.ImportAtKey(%q, %s)", rw, k, describe(v))
 				op = fmt.Sprintf("HImportAtKey %d %s %s", rw, gStr(k), gRv(v, c.sink))
 				_ = c.objs[rw].row.ImportAtKey(k, v)
@@ -258,6 +266,10 @@ func (c *aliasCtx) history(nops int) string {
 			}
 		}
 		if newObj.tpl != nil || newObj.row != nil {
+			newObj.origin = -1
+			if newObj.row != nil && (strings.HasPrefix(op, "HCreate")) {
+				fmt.Sscanf(strings.Fields(op)[1], "%d", &newObj.origin)
+			}
 			c.objs = append(c.objs, newObj)
 		}
 		c.rep.Distribution["op:"+strings.SplitN(op, " ", 2)[0]]++
